@@ -227,17 +227,26 @@ def run_api(spec, rec: Recorder):
     mon.KDFS.install()
     rng = common.rng_for(ID, spec)
     h = spec["hash"]
-    root = rng.randbytes(rng.choice([64, 64, 16, 32, 63, 65, 128, 256, 1]))  # "forall root keys": not only 64-byte ones
-    rec.seen("root_key_lengths", len(root))
-    rkid = uuid.UUID(int=rng.getrandbits(128))
-    rk = cms.RootKey(root, h)
+    import base64
+
+    from vf.props import online as _online
+
+    # "forall root keys": not only 64 random bytes - other lengths, and material that looks like an encoding of a key
+    pool = [rng.randbytes(rng.choice([64, 64, 16, 32, 63, 65, 128, 256, 1])), base64.b64encode(rng.randbytes(64)), rng.randbytes(64).hex().encode(), base64.b64encode(rng.randbytes(48)), bytes(64)] + [_online.root_key_material(rng) for _ in range(3)]
+    worlds = []
+    for root_ in pool:
+        rkid_ = uuid.UUID(int=rng.getrandbits(128))
+        c_ = __import__("dpapi_ng").KeyCache()
+        c_.load_key(root_, rkid_, kdf_parameters=rg.enc_kdf_parameters(h))
+        worlds.append((root_, rkid_, cms.RootKey(root_, h), c_))
+        rec.seen("root_key_lengths", len(root_))
+    root, rkid, rk, _ = worlds[0]
     positions = [(i, j) for i in range(32) for j in range(32)]
     if spec["n"] < 1024:
         edge = [(i, j) for i in (0, 1, 30, 31) for j in (0, 1, 30, 31)]
         positions = edge + rng.sample(positions, spec["n"] - len(edge))
-    cache = dpapi_ng.KeyCache()
-    cache.load_key(root, rkid, kdf_parameters=rg.enc_kdf_parameters(h))
     for idx, (l1, l2) in enumerate(positions):
+        root, rkid, rk, cache = worlds[idx % len(worlds)] if idx % 2 else worlds[0]
         l0 = rng.choice([361, 0, 2**31 - 1, rng.randrange(1000)])
         sid = "S-1-5-21-%d-%d" % (rng.randrange(2**32), idx)
         pt = b"c02-%d-%d-%d" % (l0, l1, l2)
